@@ -34,7 +34,7 @@ def _ctx(now):
 
 
 def _mk_sched(pre):
-    n = len(pre["queue"])
+    n = len(pre["lastran"])
     return {
         "queue": [NAMES[a] for a in pre["queue"]],
         "last_ran_ms": {NAMES[i + 1]: pre["lastran"][i] for i in range(n)},
@@ -47,7 +47,7 @@ def replay_sched(case) -> List[Tuple[str, str]]:
     consts, t = case
     fails: List[Tuple[str, str]] = []
     o = t["obs"]
-    if o["op"] == "advance":
+    if o["op"] in ("advance", "leave"):      # the clock and the driver's own queue edits: nothing of the scheduler is called
         return fails
     pre, post = t["pre"], t["post"]
     sched = _mk_sched(pre)
@@ -151,16 +151,19 @@ def check(run) -> None:
                     for rot in ([False, True] if policy == "round_robin" else [False]):
                         grid.append((n, policy, mct, aging, rot))
     invs = ["ChosenEligibleOrReset", "WaitBound", "CountersBounded", "QueueIsPermutation"]
-    for (n, policy, mct, aging, rot) in grid:
-        depth = (26 if n <= 2 else 20) if q else (40 if n <= 3 else 30)
+    # the same grid cell may also run with agents leaving the queue (3 agents; saturation with a removed agent that
+    # sorts before every queued one)
+    grid = [g + (False,) for g in grid] + [(3, pol, m, 100, pol == "round_robin", True) for pol in ("round_robin", "fair_queue") for m in ((1,) if q else (1, 2))]
+    for (n, policy, mct, aging, rot, leave) in grid:
+        depth = ((26 if n <= 2 else 20) if q else (40 if n <= 3 else 30)) if not leave else (14 if q else 20)
         consts = {"N": n, "Policy": policy, "Mct": mct, "Aging": aging, "Rotate": rot,
                   "Advances": ([0, 100, 250] if policy == "fair_queue" and aging else [0, 100]),
-                  "MaxNow": 500 if q else 800, "MaxDepth": depth}
+                  "MaxNow": 500 if q else 800, "MaxDepth": depth, "AllowLeave": leave}
         cfg = make_cfg(consts, invs, [], constraint="DepthOK")
-        name = f"Sched_n{n}_{policy[:2]}_m{mct}_a{aging}_r{int(rot)}"
+        name = f"Sched_n{n}_{policy[:2]}_m{mct}_a{aging}_r{int(rot)}" + ("_leave" if leave else "")
         res = run.tlc("Scheduler", cfg, name=name, workers=8, timeout_s=900)
         run.model_must_hold(res)
-        cases = [(consts, t) for t in res.emitted if t["obs"]["op"] != "advance"]
+        cases = [(consts, t) for t in res.emitted if t["obs"]["op"] not in ("advance", "leave")]
         # pre-states differing only in `since`/`pend` are identical for the implementation
         seen = set()
         uniq = []
@@ -185,7 +188,7 @@ def check(run) -> None:
     # liveness on the clock-abstracted model
     for (n, policy, mct) in ([(3, "round_robin", 2)] if q else [(3, "round_robin", 2), (3, "fair_queue", 2), (4, "round_robin", 1)]):
         consts = {"N": n, "Policy": policy, "Mct": mct, "Aging": 0, "Rotate": policy == "round_robin",
-                  "Advances": [], "MaxNow": 0, "MaxDepth": 0}
+                  "Advances": [], "MaxNow": 0, "MaxDepth": 0, "AllowLeave": False}
         cfg = make_cfg(consts, ["WaitBound"], ["EveryoneRuns"], spec="Fair", emit=False, view=None)
         res = run.tlc("Scheduler", cfg, name=f"SchedLive_n{n}_{policy[:2]}_m{mct}", workers=1, timeout_s=600)
         run.model_must_hold(res)
@@ -211,7 +214,7 @@ def check(run) -> None:
     tidn = 0
     for (n, policy, mct, aging, rot) in ([(3, "round_robin", 2, 100, True), (3, "fair_queue", 2, 100, False),
                                            (4, "fair_queue", 1, 200, False), (4, "round_robin", 3, 0, False)] if q else
-                                          [g for g in grid if g[0] >= 3]):
+                                          [g[:5] for g in grid if g[0] >= 3 and not g[5]]):
         per = 6 if q else 10
         steps = 400 if q else 2000
         args = []
@@ -224,7 +227,7 @@ def check(run) -> None:
         sel = [e for e in ctl["ev"] if e["op"] == "select"]
         sel[len(sel) // 2]["agent"] = sel[len(sel) // 2]["agent"] % n + 1
         consts = {"N": n, "Policy": policy, "Mct": mct, "Aging": aging, "Rotate": rot,
-                  "Advances": [], "MaxNow": 0, "MaxDepth": 0}
+                  "Advances": [], "MaxNow": 0, "MaxDepth": 0, "AllowLeave": False}
         v = run.validate_traces("SchedulerTrace", consts, traces + [ctl], name=f"SchedTrace_{tidn}")
         for t in traces + [ctl]:
             verdict, pos = v[t["tid"]]
